@@ -151,6 +151,8 @@ struct Env<'a> {
     exp_cost: u64,
     /// Also put the problems to the `crustabri solve` binary on this case.
     through_cli: bool,
+    /// A query of this case ran into the wall-clock cap: the remaining targets are skipped.
+    abandoned: bool,
 }
 
 impl Env<'_> {
@@ -240,7 +242,15 @@ fn note_monitor(env: &mut Env, h: &monitor::MonHandle, t: &Target, enc: Enc, q: 
             .count_by("sat_contract_errors_seen", s.contract_errors.len() as u64);
     }
     let cap_hit = s.cap_hit;
+    let time_hit = s.time_hit;
     drop(s);
+    if time_hit {
+        // not a verdict: the query ran into the wall-clock cap (an enumeration that is legitimately huge on
+        // a framework of hundreds of arguments); the rest of this framework is left aside
+        env.ctx.count("queries_abandoned_at_the_wall_clock_cap");
+        env.abandoned = true;
+        return true;
+    }
     if cap_hit {
         let sig = format!(
             "{}/sat-call-cap-exceeded/{}/{}",
@@ -290,7 +300,7 @@ fn check_c01<T: HLabel>(env: &mut Env, built: &Built<T>) {
     let abs = env.case.abs.clone();
     let cap = call_cap(&abs);
     for t in targets().iter().filter(|t| t.kind == QKind::SE) {
-        if env.ctx.out_of_time() {
+        if env.ctx.out_of_time() || env.abandoned {
             return; // the time budget also bounds the work spent inside one (large) case
         }
         let has = env.oracle.has_ext(t.sem);
@@ -548,7 +558,7 @@ fn check_acceptance<T: HLabel>(env: &mut Env, built: &Built<T>, rng: &mut Rng) {
     for t in targets().iter().filter(|t| {
         t.kind != QKind::SE && kind.map(|k| k == t.kind).unwrap_or(true)
     }) {
-        if env.ctx.out_of_time() {
+        if env.ctx.out_of_time() || env.abandoned {
             return;
         }
         let encs = usable_encoders(env.ctx, env.exp_cost, t);
@@ -764,7 +774,7 @@ fn check_c07<T: HLabel>(env: &mut Env, built: &Built<T>, rng: &mut Rng) {
         }
     }
     for t in targets().iter().filter(|t| t.kind != QKind::SE) {
-        if env.ctx.out_of_time() {
+        if env.ctx.out_of_time() || env.abandoned {
             return;
         }
         // library-level property: each solver type under its own semantics only
@@ -1062,6 +1072,7 @@ pub fn eval_case(
         focus,
         exp_cost: 0,
         through_cli,
+        abandoned: false,
     };
     if env.through_cli {
         let mut r2 = Rng::from_path(&[0xc11, env.case.abs.n as u64, env.case.abs.att.len() as u64]);
@@ -1161,6 +1172,9 @@ pub fn schedule(prop: Prop, tier: Tier) -> Vec<(&'static str, u64)> {
 }
 
 pub fn run(ctx: &mut Ctx, prop: Prop) {
+    // one query may take 40 s of SAT calls at most (far above anything but an enumeration that is legitimately
+    // huge on a framework of hundreds of arguments); beyond, it is abandoned as inconclusive
+    monitor::set_query_wall_cap(Some(std::time::Duration::from_secs(40)));
     let lim = GenLimits {
         er_max: 9,
         big_min: 20,
